@@ -37,7 +37,7 @@ def run(F, rep, tier):
     rep.explanation = __doc__
     v = F.fn("aranya_policy_compiler::validate::validate")
     # --- R1
-    nexts = [c for c in v.calls if c.is_("iter::Iterator::next") and "TraceFailure" in (c.self_ty or "")]
+    nexts = [c for c in v.calls if c.is_("Iterator::next") and "TraceFailure" in (c.self_ty or "")]
     if len(nexts) != 1:
         rep.anchor_missing("validate: expected one loop over TraceFailure, found %d" % len(nexts))
         return
